@@ -123,11 +123,19 @@ def seq_of(v, n):
     return list(v)
 
 
+class LayoutChanged(Exception):
+    """the implementation keeps the state the abstraction reads somewhere else (a refactoring): conformance replay cannot
+    run on this tree; reported as 'not decided', never as a violation"""
+
+
 # ---- abstraction of the implementation state ---------------------------------------------------------
 def parent_pool(parent_thread):
     fr = sys._current_frames().get(parent_thread.ident)
     while fr is not None:
         if fr.f_code.co_name == "irun" and fr.f_code.co_filename.endswith("annet/parallel.py"):
+            if "pool" not in fr.f_locals:
+                # irun no longer keeps its live workers in a local called `pool`: the abstraction does not fit this tree
+                raise LayoutChanged("irun has no local 'pool'")
             p = fr.f_locals.get("pool")
             return None if p is None else frozenset(int(n.split("-")[1]) for n in p.keys())
         fr = fr.f_back
@@ -281,7 +289,12 @@ def conform(N, PS, Q, workdir, budget_paths=None):
             i = pos[0]
             st_id = plan[i][0] if i < len(plan) else plan[-1][2]
             mv = model_view(states[st_id], PS, N)
-            av = abstract(ex, PS, N)
+            try:
+                av = abstract(ex, PS, N)
+            except LayoutChanged as e:
+                if not any(p[0] == "layout" for p in problems):
+                    problems.insert(0, ("layout", str(e)))
+                return None
             if av != mv:
                 problems.append(("state-mismatch", {"step": i, "model": repr(mv), "impl": repr(av),
                                                     "path": [p[1] for p in plan[:i]]}))
